@@ -405,7 +405,7 @@ def run(ctx):
         "binary64 rounding never changes the answer for points farther than 1e-6 x size from every edge "
         "- tested with the exact oracle",
         "invariance under translation/scaling in binary64 (the theorems are over R)"]
-    proved = cm.prove(ctx)
+    proved = cm.prove_with_kernels(ctx, ["c_inside"])
     cm.use_impl()
     rng = ctx.rng
     terms, replays = [], []
